@@ -20,19 +20,21 @@ func (i c16SizeInfo) ModTime() time.Time { return time.Time{} }
 
 var _ fs.FileInfo = c16SizeInfo{}
 
-// c16CopyOne: copyOneFile from a source file with arbitrary length/bytes/read piece sizes into a
+// c16CopyOnePath: copyOneFile from a source file with arbitrary length/bytes/read piece sizes into a
 // destination whose writes may be short. info.Size() is an arbitrary int64, so both the read-all
 // path (<= 64 MiB) and the streaming path (> 64 MiB) are explored with the same small contents.
 // Oracle: nil => the destination file holds exactly the source's bytes, in order.
 //
 //	no injected error, every write makes progress (streaming) / is complete (read-all) => nil.
-func c16CopyOne(chunked, shortWrite bool, failRead, failWrite int) {
+//
+// which: 0 = info.Size() arbitrary (both paths), 1 = read-all path only, 2 = streaming path only
+func c16CopyOnePath(chunked, shortWrite bool, failRead, failWrite int, which int) {
 	max := vp.Bound("filelen", 6, 10)
 	calls := vp.Bound("readcalls", 4, 6)
 	if chunked {
 		// symbolic piece boundaries make every byte an ite chain: smaller bounds
-		max = vp.Bound("filelen.chunked", 4, 8)
-		calls = vp.Bound("readcalls.chunked", 3, 5)
+		max = vp.Bound("filelen.chunked", 6, 10)
+		calls = vp.Bound("readcalls.chunked", 4, 6)
 	}
 	if shortWrite {
 		// every split of every piece is a separate path: keep the product small
@@ -46,6 +48,12 @@ func c16CopyOne(chunked, shortWrite bool, failRead, failWrite int) {
 	D.shortWrite, D.failWrite = shortWrite, failWrite
 	S.store, D.store = max, max
 	infoSize := vp.I64("info.size")
+	if which == 1 {
+		vp.Assume(infoSize <= 64<<20)
+	}
+	if which == 2 {
+		vp.Assume(infoSize > 64<<20)
+	}
 	info := c16SizeInfo{c16Info{sf}, infoSize}
 	vp.Unwind(max + calls + 5)
 	vp.NoPanic()
@@ -63,7 +71,10 @@ func c16CopyOne(chunked, shortWrite bool, failRead, failWrite int) {
 	streaming := infoSize > 64<<20
 	if err == nil {
 		vp.Assert(df.size == sf.size, "nil only if the destination has the source's length")
-		vp.Assert(c16SameBytes(sf, df), "nil only if the destination has the source's bytes")
+		bytesOK, total := c16WritesMatch(hd, sf)
+		vp.Assert(hd.wcalls <= len(hd.wlen), "bounded model: at most 8 write calls")
+		vp.Assert(total == sf.size, "nil only if the bytes written add up to the source's length")
+		vp.Assert(bytesOK, "nil only if every byte written is the source's byte at that position")
 		vp.Assert(!hs.rerr, "nil only if the source reported no error")
 		vp.Assert(!hd.werr, "nil only if the destination reported no error")
 		vp.Assert(hs.reof, "nil only if the source was read to EOF")
@@ -88,19 +99,21 @@ func c16CopyOne(chunked, shortWrite bool, failRead, failWrite int) {
 	}
 }
 
-func VP_C16_copy_one_full()       { c16CopyOne(false, false, -1, -1) }
-func VP_C16_copy_one_chunked()    { c16CopyOne(true, false, -1, -1) }
-func VP_C16_copy_one_shortwrite() { c16CopyOne(false, true, -1, -1) }
-func VP_C16_copy_one_shortwrite_chunked() {
-	if vp.Thorough() {
-		c16CopyOne(true, true, -1, -1)
-	}
-}
-func VP_C16_copy_one_readerr0()  { c16CopyOne(true, false, 0, -1) }
-func VP_C16_copy_one_readerr1()  { c16CopyOne(true, false, 1, -1) }
-func VP_C16_copy_one_readerr2()  { c16CopyOne(true, true, 2, -1) }
-func VP_C16_copy_one_writeerr0() { c16CopyOne(true, false, -1, 0) }
-func VP_C16_copy_one_writeerr1() { c16CopyOne(true, true, -1, 1) }
+// info.Size() arbitrary: the choice between the two paths is the solver's
+func VP_C16_copy_one_full()      { c16CopyOnePath(false, false, -1, -1, 0) }
+func VP_C16_copy_one_readerr0()  { c16CopyOnePath(true, false, 0, -1, 0) }
+func VP_C16_copy_one_writeerr0() { c16CopyOnePath(true, false, -1, 0, 0) }
+
+// one path at a time (much smaller formulas than both paths merged)
+func VP_C16_copy_one_chunked_readall()    { c16CopyOnePath(true, false, -1, -1, 1) }
+func VP_C16_copy_one_chunked_stream()     { c16CopyOnePath(true, false, -1, -1, 2) }
+func VP_C16_copy_one_shortwrite_readall() { c16CopyOnePath(false, true, -1, -1, 1) }
+func VP_C16_copy_one_shortwrite_stream()  { c16CopyOnePath(false, true, -1, -1, 2) }
+func VP_C16_copy_one_shortwrite_chunked() { c16CopyOnePath(true, true, -1, -1, 2) }
+func VP_C16_copy_one_readerr1_readall()   { c16CopyOnePath(true, false, 1, -1, 1) }
+func VP_C16_copy_one_readerr1_stream()    { c16CopyOnePath(true, false, 1, -1, 2) }
+func VP_C16_copy_one_readerr2_stream()    { c16CopyOnePath(true, true, 2, -1, 2) }
+func VP_C16_copy_one_writeerr1_stream()   { c16CopyOnePath(true, true, -1, 1, 2) }
 
 // VP_C16_copy_one_big: the streaming path on a sparse all-zero source of arbitrary length
 // 0..32 KiB+9 (thorough 3*32 KiB+9: more than one 32 KiB buffer; the 64 MiB threshold is passed through info.Size()),
@@ -134,7 +147,7 @@ func VP_C16_copy_one_big() {
 // c16Under: the writer behind a LimitedWriter. It accepts a solver-chosen prefix of each buffer and,
 // as io.Writer demands, reports an error whenever it accepted less than it was given.
 type c16Under struct {
-	buf   [32]byte
+	dat   [4][8]byte // bytes accepted by call k
 	n     int
 	calls int
 	lens  [4]int // len(p) of call k
@@ -147,11 +160,9 @@ func (u *c16Under) Write(p []byte) (int, error) {
 	vp.Assume(k < len(u.lens))
 	c := int(vp.U8("under.w"+string(rune('0'+k))) & 15)
 	vp.Assume(c <= len(p))
-	vp.Assume(u.n+c <= len(u.buf))
-	base := u.n
 	for i := 0; i < 8; i++ {
 		if i < c {
-			u.buf[(base+i)&31] = p[i]
+			u.dat[k&3][i] = p[i]
 		}
 	}
 	u.n += c
@@ -175,7 +186,6 @@ func VP_C16_limit_writer() {
 	lw, ok := w.(*LimitedWriter)
 	vp.Assert(ok, "NewLimitWriter returns a *LimitedWriter")
 	remaining := limit
-	delivered := 0
 	vp.NoPanic()
 	for r := 0; r < 3; r++ {
 		p := vp.Bytes("p"+string(rune('0'+r)), 8)
@@ -199,14 +209,13 @@ func VP_C16_limit_writer() {
 			vp.Assert(n == u.got[before&3], "Write returns the count the underlying writer accepted")
 			for i := 0; i < 8; i++ {
 				if i < n {
-					vp.Assert(u.buf[(delivered+i)&31] == p[i], "the bytes that reach W are the leading bytes of p, in order")
+					vp.Assert(u.dat[before&3][i] == p[i], "the bytes that reach W are the leading bytes of p, in order")
 				}
 			}
 			if err == nil {
 				vp.Assert(int64(n) == want, "no error only if everything offered was accepted")
 			}
 			remaining -= int64(n)
-			delivered += n
 		}
 		vp.Assert(lw.N == remaining, "N is the limit minus the bytes written so far")
 	}
